@@ -73,6 +73,9 @@ func (a *A) Kids() (interface{}, error) { return a.r("kids", nil) }
 func (a *A) Boom() (interface{}, error) { return a.r("boom", nil) }
 func (a *A) Many() (interface{}, error) { return a.r("many", nil) }
 func (a *A) Half() (interface{}, error) { return a.r("half", nil) }
+func (a *A) Nest() (interface{}, error) { return a.r("nest", nil) }
+func (a *A) Wrong() (interface{}, error) { return a.r("wrong", nil) }
+func (a *A) Flags() (interface{}, error) { return a.r("flags", nil) }
 func (a *A) Tag(s string) (interface{}, error) {
 	return a.r("tag", map[string]interface{}{"s": s})
 }
